@@ -5,6 +5,7 @@ package main
 import (
 	"errors"
 	"fmt"
+	"io"
 	"strconv"
 	"strings"
 	"time"
@@ -42,11 +43,20 @@ type faultyWriter struct {
 	fired     int
 	permanent bool // once failed, always fail
 	temp      bool // failures carry an error with Temporary() == true
+	errKind   int  // 0: plain / temporary; 1: io.EOF; 2: io.ErrShortWrite; 3: io.ErrClosedPipe (sentinel errors code may special-case)
 	dead      bool
 	firstFail int
 }
 
 func (w *faultyWriter) err() error {
+	switch w.errKind {
+	case 1:
+		return io.EOF
+	case 2:
+		return io.ErrShortWrite
+	case 3:
+		return io.ErrClosedPipe
+	}
 	if w.temp {
 		return tempError{}
 	}
@@ -273,14 +283,18 @@ var kinds = []struct {
 	mode      failMode
 	permanent bool
 	temp      bool
+	errKind   int
 }{
-	{"transient-zero", failZero, false, false},
-	{"transient-short", failShort, false, false},
-	{"transient-fullcount", failAllErr, false, false},
-	{"permanent-zero", failZero, true, false},
-	{"permanent-short", failShort, true, false},
-	{"transient-zero-temporary-error", failZero, false, true},
-	{"transient-short-temporary-error", failShort, false, true},
+	{"transient-zero", failZero, false, false, 0},
+	{"transient-short", failShort, false, false, 0},
+	{"transient-fullcount", failAllErr, false, false, 0},
+	{"permanent-zero", failZero, true, false, 0},
+	{"permanent-short", failShort, true, false, 0},
+	{"transient-zero-temporary-error", failZero, false, true, 0},
+	{"transient-short-temporary-error", failShort, false, true, 0},
+	{"transient-zero-error-is-io.EOF", failZero, false, false, 1},
+	{"transient-short-error-is-io.ErrShortWrite", failShort, false, false, 2},
+	{"permanent-zero-error-is-io.ErrClosedPipe", failZero, true, false, 3},
 }
 
 func maxN(tier string) int {
@@ -357,7 +371,7 @@ func runCase(r *driver.Run, n int, fam family, sampled bool) {
 		for _, kd := range kinds {
 			kd := kd
 			k := k
-			fw := &faultyWriter{r: r, permanent: kd.permanent, temp: kd.temp}
+			fw := &faultyWriter{r: r, permanent: kd.permanent, temp: kd.temp, errKind: kd.errKind}
 			fw.plan = func(call int, p []byte) failMode {
 				if call == k {
 					return kd.mode
@@ -404,7 +418,7 @@ func runRandom(r *driver.Run) {
 	rate := []int{0, 1, 2, 5, 20}[t.Draw(5)]
 	permanentAfter := t.Chance(1, 4)
 	r.Logf("config n=%d weights=%s fault-rate=%d%% permanent=%v", n, fam.name, rate, permanentAfter)
-	fw := &faultyWriter{r: r, temp: t.Chance(1, 3)}
+	fw := &faultyWriter{r: r, temp: t.Chance(1, 3), errKind: []int{0, 0, 0, 1, 2, 3}[t.Draw(6)]}
 	fw.plan = func(call int, p []byte) failMode {
 		if rate == 0 || t.Draw(100) >= rate {
 			return noFail
@@ -430,7 +444,7 @@ func main() {
 		Property: "C20",
 		Engine:   "writer-faults",
 		Level:    "fault_enumeration",
-		Rule: "enumerated case = (n, weight family) for every n up to 14 (24 thorough) x 6 families, plus larger n (33, 65, 70; thorough: 31..33, 63..65, 100, 128..130) x 2 families: one fault-free execution of tsp.LIB whose output is parsed by an independent TSPLIB parser, then one execution per (write position k, failure kind) for EVERY k below the number of Write calls the fault-free run made and every kind in {transient, permanent} x {0 bytes accepted, short count, full count with error} plus transient failures whose error reports Temporary() == true; for very large n (260; thorough 255..257, 300, 513) about 300 evenly spaced positions plus the first and last 20; " +
+		Rule: "enumerated case = (n, weight family) for every n up to 14 (24 thorough) x 6 families, plus larger n (33, 65, 70; thorough: 31..33, 63..65, 100, 128..130) x 2 families: one fault-free execution of tsp.LIB whose output is parsed by an independent TSPLIB parser, then one execution per (write position k, failure kind) for EVERY k below the number of Write calls the fault-free run made and every kind in {transient, permanent} x {0 bytes accepted, short count, full count with error} plus transient failures whose error reports Temporary() == true or is one of the sentinel values io.EOF / io.ErrShortWrite / io.ErrClosedPipe; for very large n (260; thorough 255..257, 300, 513) about 300 evenly spaced positions plus the first and last 20; " +
 			"random runs draw n, a weight family (incl. tape-random 64-bit weights) and a per-write failure rate, so several failures land in one execution. A case is non-trivial when LIB performs more than 3 writes (i.e. reaches the buffered weight section); distinct = distinct fingerprints of (writes, bytes, faults fired) sequences.",
 		Assumptions: []string{
 			"a Write that returns n < len(p) with a nil error violates the io.Writer contract and is never injected",
